@@ -572,7 +572,7 @@ func main() {
 	one("script:write-fails", S(act{Op: "failsend"}, act{Op: "start", I: 0, ID: 7}, act{Op: "oksend"}, act{Op: "pong", ID: 7}, act{Op: "start", I: 1, ID: 7}, act{Op: "pong", ID: 7}, act{Op: "await", I: 1}))
 	one("script:close-while-pending", S(act{Op: "start", I: 0, ID: 7}, act{Op: "close"}, act{Op: "blocked", I: 0}, act{Op: "cancel", I: 0}, act{Op: "await", I: 0}))
 	one("script:close-two-pending", S(act{Op: "start", I: 0, ID: 7}, act{Op: "start", I: 1, ID: 9}, act{Op: "pong", ID: 9}, act{Op: "await", I: 1}, act{Op: "close"}, act{Op: "blocked", I: 0}, act{Op: "cancel", I: 0}, act{Op: "await", I: 0}))
-	for i := 0; i < c.N(60, 3000); i++ {
+	for i := 0; i < c.N(60, 220); i++ {
 		one("script:random", genScript(c.Rng))
 	}
 	// the keep-alive loop
@@ -586,7 +586,7 @@ func main() {
 	one("loop:writeblock", scenario{Seed: 6, Loop: []string{"writeblock"}})
 	one("loop:match-then-writeblock", scenario{Seed: 6, Loop: []string{"match", "writeblock"}})
 	modes := []string{"match", "dup", "foreign", "none", "late", "writefail", "writeblock", "close"}
-	for i := 0; i < c.N(6, 200); i++ {
+	for i := 0; i < c.N(6, 16); i++ {
 		n := c.Rng.Range(1, 3)
 		l := make([]string, n)
 		for j := range l {
